@@ -87,7 +87,7 @@ def sequential_outcomes(model, start, calls, tolerate_in_progress=True):
     return outs
 
 
-def execute(contents, cfg, start, calls, chooser, mp_mode=False):
+def execute(contents, cfg, start, calls, chooser, mp_mode=False, on_event=None):
     """one controlled execution on the real store + replay of its schedule on the model"""
     trio = seq.Trio(contents, **cfg)
     try:
@@ -96,6 +96,8 @@ def execute(contents, cfg, start, calls, chooser, mp_mode=False):
         for c in calls:
             trio.prepare(c)
         s = sched.Sched(trio.real, calls, mp_mode=mp_mode)
+        if on_event is not None:
+            s.on_event = lambda kind, rel, _root=trio.real.root: on_event(kind, rel, _root)
         try:
             outcome = s.run(chooser)
         finally:
